@@ -24,6 +24,7 @@ class Pools:
         self.scripts_models = self._load_scripts(os.path.join(repo, "tests", "models", "*.py"))
         self.scripts_backend = self._load_scripts(os.path.join(repo, "tests", "onnx_backend_test_code", "*.py"))
         self.texts = self._harvest_texts()
+        self.script_models = self._script_models()
         self.backend_models = self._backend_models()
 
     # ---------------------------------------------------------------- scripts
@@ -71,6 +72,23 @@ class Pools:
         logging.disable(logging.NOTSET)
         return out
 
+    def _script_models(self) -> list[tuple[str, str, str]]:
+        """Module-level @script functions in the rewriter's rule tests: the models (built by translation) on which the
+        multi-output fusion rules fire. Returned as (file, function name, file source)."""
+        out = []
+        pats = ["onnxscript/rewriter/rules/fusion/*_test.py", "onnxscript/rewriter/rules/common/*_test.py"]
+        for pat in pats:
+            for f in sorted(glob.glob(os.path.join(self.repo, pat))):
+                try:
+                    src = open(f, encoding="utf-8").read()
+                    tree = ast.parse(src)
+                except (OSError, SyntaxError):
+                    continue
+                for node in tree.body:
+                    if isinstance(node, ast.FunctionDef) and any("script" in ast.unparse(d) for d in node.decorator_list):
+                        out.append((os.path.relpath(f, self.repo), node.name, src))
+        return out
+
     @staticmethod
     def _backend_models() -> list[tuple[str, int]]:
         import onnx
@@ -110,7 +128,10 @@ class Pools:
         return with_id(op)
 
     def model_ref(self, rng: Rng, family: str | None = None) -> dict:
-        kind = rng.weighted([("text", 6), ("backend", 3), ("backend_lift", 3)])
+        kind = rng.weighted([("text", 6), ("backend", 3), ("backend_lift", 3), ("script", 3 if self.script_models else 0)])
+        if kind == "script" and family is None:
+            f, fn, src = rng.choice(self.script_models)
+            return {"pool": "script", "src": src, "fn": fn, "family": "script:" + f}
         if kind == "text" or family is not None:
             cands = [(f, t) for f, t in self.texts if family is None or f == family] or self.texts
             f, t = rng.choice(cands)
